@@ -152,6 +152,7 @@ func (e *vpC40Expiry) check(t *testing.T, label string) {
 		return
 	}
 	time.Sleep(time.Until(last.Add(vpC40ExpiryCheckAt)))
+	woke := time.Since(last)
 	nonzero := func() (n int, sample string) {
 		for _, lc := range items {
 			if p := atomic.LoadUint32(&lc.penalty); p != 0 {
@@ -183,8 +184,8 @@ func (e *vpC40Expiry) check(t *testing.T, label string) {
 		return fmt.Sprintf("%d lbClients watched, %d of them had been penalised; all zero %v after the last failure", len(items), penalised, time.Since(last).Round(10*time.Millisecond))
 	})
 	if n != 0 {
-		t.Fatalf("%s: %d of %d clients still carry a penalty %v after the last penalised failure returned (limit 3 s): e.g. %s",
-			label, n, len(items), time.Since(last).Round(time.Millisecond), sample)
+		t.Fatalf("%s: %d of %d clients still carry a penalty %v after the last penalised failure returned (limit 3 s; the harness woke up %v after it): e.g. %s",
+			label, n, len(items), time.Since(last).Round(time.Millisecond), woke.Round(time.Millisecond), sample)
 	}
 }
 
